@@ -31,6 +31,8 @@ THEOREMS = [P + t for t in (
     "survivor_unchanged", "survivor_unchanged_seq",
     # the catalog probe: the entry points that remove a component leave nothing of the peering behind for ANY model with ports
     "catalog_removal_clean", "service_properties_kept",
+    # round 8: a node that owns several services with equal-named interfaces (names are unique per service only)
+    "own_services_removal_clean",
 )]
 TRUSTED_BASE = [
     "Model/Remove.lean mirrors by hand the bodies of remove_cp_and_links, Interface.get_peers, find_peer_connection_points, "
@@ -59,7 +61,8 @@ ASSUMPTIONS = [
     "elements addressed through Topology-level calls carry names unique in their class (C07's invariant); an ambiguous name must raise",
 ]
 RULE = ("every applicable removal / disconnect / un-peer / remove-child / remove-interface / prune on topologies built through the public API "
-        "from seeded recipes (1-4 nodes, NICs with 1-2 ports, sub-interfaces, facility with 1-3 interfaces, switch, 0-3 services with connected "
+        "from seeded recipes (1-4 nodes, NICs with 1-2 ports, sub-interfaces, facility with 1-3 interfaces, switch, 1-3 services owned directly by a "
+        "node / a switch with equal-named ports (p1 in each) connected like any other interface, 0-3 services with connected "
         "interfaces, peerings, explicit links of every LinkType with 1-4 ends, reservation marks; names plain / reused / prefix-related / equal across classes; "
         "generated or caller-supplied prefix-related node ids; experiment and substrate flavour), each sent to the model by id and by name, plus "
         "calls whose name resolves to nothing / another class / a node of the wrong kind; histories (by-name lookups through fresh and kept "
